@@ -1,0 +1,30 @@
+//go:build verif
+
+/*
+ * Simulation hooks, only compiled with build tag "verif". They change no behaviour of the
+ * shipped binary: they let a deterministic simulator supply the cache store underneath the
+ * in-memory session database (so that it can interleave individual store operations) and
+ * switch off the background pruning goroutine of that cache.
+ */
+
+package storage
+
+import (
+	"time"
+
+	"github.com/eko/gocache/lib/v4/cache"
+	"github.com/eko/gocache/lib/v4/store"
+)
+
+// NewSimSessionDatabase creates the in-memory session database over a caller-supplied cache store (simulation only).
+func NewSimSessionDatabase(underlying store.StoreInterface) *InMemorySessionDatabase {
+	return &InMemorySessionDatabase{
+		underlying: cache.New[[]byte](underlying),
+	}
+}
+
+// SimSetSessionPruneInterval overrides the interval of the background pruning of the in-memory session database (simulation only).
+// Zero disables the pruning goroutine; expired entries are still never returned.
+func SimSetSessionPruneInterval(interval time.Duration) {
+	sessionStorePruneInterval = interval
+}
